@@ -9,7 +9,7 @@
   `ref_i − src_i` on the common rows of common columns, NaN everywhere else.
 -/
 import FcModel.Diff
-namespace Fc.Spec
+namespace Fc.C14.Spec
 open Fc
 
 /-- entry `i` of the demanded difference of two arrays on both sides -/
@@ -72,4 +72,4 @@ def tableDiff (src ref : TableFields) : DiffTable :=
   let names := ref.cols.map (·.1) ++ (src.cols.filter fun kv => (dictGet kv.1 ref.cols).isNone).map (·.1)
   ⟨n, names.map fun k => (k, ⟨.flt f64, [n], (List.range n).map (tableAt ref src k)⟩)⟩
 
-end Fc.Spec
+end Fc.C14.Spec
